@@ -11,6 +11,14 @@ use props::{Tier, Verdict};
 use std::collections::{BTreeMap, BTreeSet};
 use std::io::Write;
 
+/// protocol line with its hex arguments decoded, for humans
+fn show_line(l: &str) -> String {
+    l.split(' ')
+        .map(|p| if p.len() > 1 && p.starts_with('x') && p[1..].chars().all(|c| c.is_ascii_hexdigit()) { format!("{:?}", codec::unx(p)) } else { p.to_string() })
+        .collect::<Vec<_>>()
+        .join(" ")
+}
+
 fn main() {
     std::panic::set_hook(Box::new(|_| {}));
     let args: Vec<String> = std::env::args().collect();
@@ -27,6 +35,22 @@ fn main() {
     }
     if args.len() >= 2 && args[1] == "deep" {
         std::process::exit(props::misc::deep_main());
+    }
+    if args.len() >= 3 && args[1] == "replay-lines" {
+        // re-execute recorded protocol lines: args[2] = file with one `I <line>` (implementation) or `D <line>` (driver) per line
+        let text = std::fs::read_to_string(&args[2]).expect("cannot read the replay lines");
+        let il: Vec<String> = text.lines().filter_map(|l| l.strip_prefix("I ").map(String::from)).collect();
+        let dl: Vec<String> = text.lines().filter_map(|l| l.strip_prefix("D ").map(String::from)).collect();
+        let mut sess = server::Session::new();
+        for l in &il {
+            println!("impl   {:<60} -> {}", show_line(l), sess.handle(l));
+        }
+        if let Ok(resp) = runner::run_driver(&dl) {
+            for (l, r) in dl.iter().zip(resp.iter()) {
+                println!("driver {:<60} -> {}", show_line(l), r);
+            }
+        }
+        return;
     }
     if args.len() >= 2 && args[1] == "k1" {
         std::process::exit(props::misc::k1_main());
@@ -54,8 +78,8 @@ fn main() {
     let mut buckets: BTreeMap<String, usize> = BTreeMap::new();
     let mut classes: BTreeMap<String, usize> = BTreeMap::new();
     let mut samples: Vec<String> = Vec::new();
-    let mut model_mismatches: Vec<(String, String)> = Vec::new();
-    let mut spec_violations: Vec<(String, String)> = Vec::new();
+    let mut model_mismatches: Vec<(String, String, Vec<String>, Vec<String>)> = Vec::new();
+    let mut spec_violations: Vec<(String, String, Vec<String>, Vec<String>)> = Vec::new();
     let mut infra_error: Option<String> = None;
 
     // process in slabs to bound memory
@@ -82,12 +106,12 @@ fn main() {
                         },
                         Verdict::ModelMismatch(d) => {
                             if model_mismatches.len() < 200 {
-                                model_mismatches.push((case.human.clone(), d));
+                                model_mismatches.push((case.human.clone(), d, case.impl_lines.clone(), case.drv_lines.clone()));
                             }
                         },
                         Verdict::SpecViolation(d) => {
                             if spec_violations.len() < 5000 {
-                                spec_violations.push((case.human.clone(), d));
+                                spec_violations.push((case.human.clone(), d, case.impl_lines.clone(), case.drv_lines.clone()));
                             }
                         },
                     }
@@ -99,7 +123,7 @@ fn main() {
     evaluations += extra_n;
     for (h, d) in extra_viol {
         if spec_violations.len() < 5000 {
-            spec_violations.push((h, d));
+            spec_violations.push((h, d, vec![], vec![]));
         }
     }
     for n in &extra_notes {
@@ -111,8 +135,16 @@ fn main() {
         }
     }
 
-    let pairs = |v: &Vec<(String, String)>| -> String {
-        let items: Vec<String> = v.iter().map(|(h, d)| format!("{{\"input\":{},\"detail\":{}}}", json_str(h), json_str(d))).collect();
+    let pairs = |v: &Vec<(String, String, Vec<String>, Vec<String>)>| -> String {
+        let items: Vec<String> = v
+            .iter()
+            .enumerate()
+            .map(|(i, (h, d, il, dl))| {
+                // protocol lines only for the first few (they can be long)
+                let lines = |l: &Vec<String>| if i < 5 { format!("[{}]", l.iter().map(|x| json_str(x)).collect::<Vec<_>>().join(",")) } else { "[]".to_string() };
+                format!("{{\"input\":{},\"detail\":{},\"impl_lines\":{},\"drv_lines\":{}}}", json_str(h), json_str(d), lines(il), lines(dl))
+            })
+            .collect();
         format!("[{}]", items.join(","))
     };
     let map = |m: &BTreeMap<String, usize>| -> String {
